@@ -39,6 +39,12 @@ extern "C" {
 #define INVALID_PARAMS -32602
 #define INTERNAL_ERROR -32603
 
+/**
+ * Like cJSON_AddItemToObject(), but deletes @p item if it could not be added
+ * (cJSON copies the key; if that fails the item is not taken over).
+ * @return 0 on success, -1 otherwise.
+ */
+int add_item_to_object(cJSON *object, const char *key, cJSON *item);
 cJSON *create_success_response_from_request(const struct peer *p, const cJSON *request);
 cJSON *create_result_response(const struct peer *p, const cJSON *id, cJSON *result, const char *result_type);
 cJSON *create_result_response_from_request(const struct peer *p, const cJSON *request, cJSON *result, const char *result_type);
